@@ -180,11 +180,72 @@ def header_is_cached(cx, cls):
         return False
     for n in ast.walk(fn.node):
         if isinstance(n, ast.If):
-            t = n.test
-            neg = isinstance(t, ast.UnaryOp) and isinstance(t.op, ast.Not)
-            if U(t.operand if neg else t) == 'self._header' and any(isinstance(c, ast.Call) and callee_name(c) == 'populateHeader' for c in ast.walk(n)):
+            # any test on the cached header (its truthiness, a key of it, .get(key)) that decides whether the header is parsed again
+            if 'self._header' in U(n.test) and any(isinstance(c, ast.Call) and callee_name(c) == 'populateHeader' for c in ast.walk(n)):
                 return True
     return False
+
+
+def r10_no_stale_buffer_slice(ck, cx, kind, cls, f, fps, rule='R10'):
+    """A header field whose value is a SLICE of the receive buffer (its content depends on how many bytes had arrived when it was
+    taken) must not be carried from one call to the next: the read boundary decides what it holds.  On every path of
+    processIncomingPacket a read of such a field is preceded, in the same call, by the assignment that takes the slice."""
+    from .c13 import _hdr_key
+    sliced = {}
+    for k in cx.idx.mro(cls):
+        for fn in k.methods.values():
+            if cx.idx.find_method(cls, fn.name) is not fn:
+                continue
+            for n in ast.walk(fn.node):
+                if isinstance(n, ast.Assign) and len(n.targets) == 1:
+                    key = _hdr_key(n.targets[0])
+                    if key is not None and any(isinstance(x, ast.Subscript) and isinstance(x.slice, ast.Slice) and (x.slice.upper is not None or x.slice.lower is not None)
+                                               and not isinstance(x.value, ast.Constant) for x in ast.walk(n.value)):
+                        sliced[key] = fn
+    if not sliced:
+        return 0
+    n = 0
+    seen = set()
+    for fp in fps:
+        fresh = set()
+        for ev in fp.path.ev:
+            node = ev.node
+            if not isinstance(node, ast.AST) or ev.kind in ('loop', 'handler', 'finally', 'leave', 'enter'):
+                continue
+            reads = []
+            if ev.kind == 'assign' and isinstance(node, ast.Assign):
+                scan = [node.value]
+            else:
+                scan = [node]
+            for root in scan:
+                for x in ast.walk(root):
+                    k = _hdr_key(x)
+                    if k in sliced and isinstance(getattr(x, 'ctx', None), ast.Load):
+                        reads.append((k, x))
+                    if isinstance(x, ast.Call) and isinstance(x.func, ast.Attribute) and x.func.attr == 'get' and U(x.func.value) == 'self._header' \
+                            and x.args and isinstance(x.args[0], ast.Constant) and x.args[0].value in sliced:
+                        reads.append((x.args[0].value, x))
+            for k, x in reads:
+                n += 1
+                if k not in fresh and (ev.frame.qn, k) not in seen:
+                    seen.add((ev.frame.qn, k))
+                    ck.ob(rule, f.qn, 'header[%r] (a slice of the buffer) is taken in the call that reads it' % k, False,
+                          detail='stale-buffer-slice %s in %s' % (k, ev.frame.qn.split('.')[-1]), loc=cx.floc(ev.frame.func or f, x),
+                          message='%s framer: %s reads self._header[%r], a slice of the receive buffer taken by %s, on a path where it was not taken in this '
+                                  'call: when the previous read ended inside that slice the cached value is short, and the frame that is now complete is '
+                                  'judged by it (dropped or mis-checked) — the messages delivered depend on where the reads were cut'
+                                  % (kind, ev.frame.qn, k, sliced[k].qn.split('.')[-1]))
+            if ev.kind == 'assign' and isinstance(node, ast.Assign):
+                for t in node.targets:
+                    for el in (t.elts if isinstance(t, (ast.Tuple, ast.List)) else [t]):
+                        k = _hdr_key(el)
+                        if k is not None:
+                            fresh.add(k)
+                        elif isinstance(el, ast.Attribute) and U(el) == 'self._header':
+                            fresh = set()
+    if n and not seen:
+        ck.ob(rule, f.qn, 'buffer-slice header fields are taken in the call that reads them', True)
+    return n
 
 
 def r6_header_cache_coherence(ck, cx, kind, cls, f, fps, rule='R6'):
@@ -242,6 +303,7 @@ def r7_add_appends(ck, cx, kind, cls, rule='R7'):
 def run(ck, tier):
     cx = Ctx()
     ck.rule('R7', 'addToFrame appends the chunk to the buffer and does nothing else to it')
+    ck.rule('R10', 'a header field that holds a slice of the receive buffer is taken in the call that reads it, never carried over from a call that saw fewer bytes')
     ck.rule('R6', 'a framer that caches the parsed header resets it whenever it drops bytes from the front of the buffer')
     ck.rule('R1', 'every delivery site lies inside a loop of processIncomingPacket that continues after a delivery')
     ck.rule('R2', 'on every path that takes a data-absence outcome (length too small / delimiter not found) nothing is discarded, raised or delivered afterwards')
@@ -261,6 +323,7 @@ def run(ck, tier):
         ck.guard(r5_chunk_independent_control, ck, cx, kind, cls, f, fps)
         ncache += ck.guard(r6_header_cache_coherence, ck, cx, kind, cls, f, fps) or 0
         ck.guard(r7_add_appends, ck, cx, kind, cls)
+        ck.guard(r10_no_stale_buffer_slice, ck, cx, kind, cls, f, fps)
         ck.sample({'framer': kind, 'paths': len(fps), 'absence-paths': sum(1 for fp in fps if fp.absences),
                    'delivery-paths': sum(1 for fp in fps if fp.deliveries)})
     ck.floor('R2', nabs, 8, 'data-absence paths over four framers')
@@ -271,4 +334,6 @@ def run(ck, tier):
     ck.floor('R6', ncache, 3, 'buffer-dropping paths of framers with a cached header')
     ck.assume('only explicit tests (len(buffer) comparisons, find() == -1) count as data-absence; short reads that are caught and turned into False are unclassified')
     ck.assume('equality of delivered message sequences over all chunkings is not decided; these are necessary structural conditions')
+    from .. import ownership as _own
+    ck.guard(_own.rule_instance_owned, ck, cx, 'R9', _own.FRAMERS, "the parsed header of one receiver's pending frame is overwritten by another receiver", 4)
     return cx.idx
